@@ -45,8 +45,8 @@ let canon_res (r : res) : string =
   | RData (b, e) -> Printf.sprintf "data:%s:%s" (hex_of_bytes b) (eopt e)
   | RCount (n, e) -> Printf.sprintf "count:%d:%s" (int_of_z n) (eopt e)
   | RPos (n, e) -> Printf.sprintf "pos:%d:%s" (int_of_z n) (eopt e)
-  | RInfos (l, e) -> Printf.sprintf "infos:%s:%s" (String.concat "," (List.map fi_s l)) (eopt e)
-  | RNames (l, e) -> Printf.sprintf "names:%s:%s" (String.concat "," (List.map hex_of_bytes l)) (eopt e)
+  | RInfos (l, e) -> Printf.sprintf "infos:%s:%s" (String.concat "," (List.sort compare (List.map (fun fi -> hex_of_bytes fi.fi_name ^ "|" ^ (if fi.fi_dir then "d" else "f")) l))) (eopt e)
+  | RNames (l, e) -> Printf.sprintf "names:%s:%s" (String.concat "," (List.sort compare (List.map hex_of_bytes l))) (eopt e)
   | RName s -> "name:" ^ hex_of_bytes s
 
 let entry_s (e : entry) : string =
